@@ -984,6 +984,11 @@ class Facts:
         def base(p):
             return re.sub(r"#\d+$", "", p)
         new_from = self._hoist_into_conversions(known)
+        for p, f in list(self.fns.items()):
+            if f.crate in known:
+                g = desugar_bool_then(self, f)
+                if g is not f:
+                    self.fns[p] = g
         cand = {}
         for p, f in self.fns.items():
             if f.crate not in known or f.kind == "Closure" or f.j.get("coroutine") or base(p) in known[f.crate]:
@@ -1566,6 +1571,9 @@ class Prov:
         args = t["args"]
         via = ("call", callee, b)
         out = set()
+        if re.search(r"<core::option::Option<T> as core::ops::try_trait::FromResidual<core::option::Option<core::convert::Infallible>>>::from_residual$", callee):
+            # `opt?` on the None side: the value returned is None, nothing of the tested option is in it
+            return {Origin("agg", "core::option::Option::None", (), (via,))} if not path else set()
         idx = transparent_args(callee) or transparent_args(t.get("decl", ""))
         comb = combinator(callee) or combinator(t.get("decl", ""))
         local_fn = self.facts.fns.get(callee)
@@ -2441,7 +2449,9 @@ def inline_calls(facts, fn, should_inline, depth=2):
         if b["term"].get("inlined"):
             nf.inlined_paths.add(b["term"]["inlined"])
             g = facts.fns.get(b["term"]["inlined"])
-    # calls that became resolvable (trait methods on a type parameter, closures handed to the helper and called by it)
+    # calls that became resolvable (trait methods on a type parameter, closures handed to the helper and called by it,
+    # function items handed to the helper as `fn(..) -> ..` pointers)
+    nf = resolve_fnptr_calls(nf)
     if depth > 1:
         nf2 = inline_closure_calls(facts, nf)
         nf3 = inline_calls(facts, nf2, should_inline, depth - 1)
@@ -2451,6 +2461,89 @@ def inline_calls(facts, fn, should_inline, depth=2):
                 x.inlined_paths = set(getattr(x, "inlined_paths", set())) | nf.inlined_paths
         return nf3
     return nf
+
+
+def resolve_fnptr_calls(fn):
+    """A call through a function pointer whose value is one function item (`parse_field(text, u64::from_str_radix)` after the helper
+    has been inlined) is a direct call of that item."""
+    j = None
+    for bi, blk in enumerate(fn.blocks):
+        t = blk["term"]
+        if t["k"] != "call" or t.get("ck") != "ptr" or "func" not in t:
+            continue
+        a = t["func"]
+        item = None
+        for _hop in range(8):
+            if a["k"] == "const" and "fn" in a:
+                item = a["fn"]
+                break
+            if a["k"] not in ("copy", "move") or a["p"]:
+                break
+            sd = fn.single_def(a["l"])
+            if not sd or sd[1] == "term" or sd[2]["k"] != "assign":
+                break
+            rv = sd[2]["rv"]
+            if rv["k"] in ("use", "cast") and isinstance(rv.get("op"), dict):
+                a = rv["op"]
+            else:
+                break
+        if item is None:
+            continue
+        if j is None:
+            j = json.loads(json.dumps(fn.j))
+        t2 = j["blocks"][bi]["term"]
+        t2["callee"], t2["decl"], t2["ck"] = item, item, "item"
+        t2.pop("func", None)
+    if j is None:
+        return fn
+    nf = Fn(j, fn.crate)
+    for attr in ("inlined", "inlined_paths"):
+        if hasattr(fn, attr):
+            setattr(nf, attr, getattr(fn, attr))
+    return nf
+
+
+def desugar_bool_then(facts, fn):
+    """`cond.then(|| e)` with a closure built in this function is `if cond { Some(e) } else { None }`: the call is replaced by that
+    control flow (the closure body spliced in), so that path rules see the test that decides whether `e` runs."""
+    sites = [bi for bi, blk in enumerate(fn.blocks) if blk["term"]["k"] == "call" and not blk["cleanup"]
+             and re.search(r"core::bool::<impl bool>::then$", blk["term"]["callee"]) and len(blk["term"]["args"]) == 2
+             and blk["term"].get("target") is not None and blk["term"]["args"][1]["k"] in ("copy", "move")
+             and fn.locals[blk["term"]["args"][1]["l"]].startswith("{closure@")]
+    if not sites:
+        return fn
+    j = json.loads(json.dumps(fn.j))
+    for bi in sites:
+        t = j["blocks"][bi]["term"]
+        sp = t.get("span", "")
+        full = t.get("dest_ty", "core::option::Option<?>")
+        inner = full[len("core::option::Option<"):-1] if full.startswith("core::option::Option<") else "?"
+        tmp = len(j["locals"])
+        j["locals"].append(inner)
+        nb = len(j["blocks"])
+        b_none, b_call, b_some = nb, nb + 1, nb + 2
+        j["blocks"].append({"cleanup": False, "stmts": [{"k": "assign", "lhs": t["dest"], "span": sp,
+                            "rv": {"k": "agg", "adt": "core::option::Option", "adt_full": full, "variant": "None", "fields": [], "ops": []}}],
+                            "term": {"k": "goto", "target": t["target"], "span": sp}})
+        j["blocks"].append({"cleanup": False, "stmts": [],
+                            "term": {"k": "call", "decl": "core::ops::function::FnOnce::call_once", "callee": "?core::ops::function::FnOnce::call_once",
+                                     "ck": "unresolved", "targs": [], "args": [t["args"][1], {"k": "const", "ty": "()", "repr": "()"}],
+                                     "arg_tys": [t["arg_tys"][1] if len(t.get("arg_tys", [])) > 1 else "", "()"], "dest": {"l": tmp, "p": []},
+                                     "dest_ty": inner, "target": b_some, "unwind": t.get("unwind", "continue"), "expn": False, "span": sp}})
+        j["blocks"].append({"cleanup": False, "stmts": [{"k": "assign", "lhs": t["dest"], "span": sp,
+                            "rv": {"k": "agg", "adt": "core::option::Option", "adt_full": full, "variant": "Some", "fields": ["0"],
+                                   "ops": [{"k": "move", "l": tmp, "p": []}]}}],
+                            "term": {"k": "goto", "target": t["target"], "span": sp}})
+        j["blocks"][bi]["term"] = {"k": "switch", "discr": t["args"][0], "discr_ty": "bool", "targets": [[0, b_none]], "otherwise": b_call, "span": sp}
+    nf = Fn(j, fn.crate)
+    for attr in ("inlined", "inlined_paths"):
+        if hasattr(fn, attr):
+            setattr(nf, attr, getattr(fn, attr))
+    out = inline_closure_calls(facts, nf)
+    for attr in ("inlined", "inlined_paths"):
+        if hasattr(nf, attr) and not hasattr(out, attr):
+            setattr(out, attr, getattr(nf, attr))
+    return out
 
 
 def _capture_source(facts, cpath, name):
